@@ -218,6 +218,8 @@ class Flow:
         self.Q = frame  # optional rotation of the external frame
         self.time_dependent = bool(np.abs(self.L1).max() > 0)
         self.position_dependent = bool(np.abs(self.L2).max() > 0 and self.path["k"] != "fixed")
+        self._const = self._xconst = self._last = None
+        self.tampered = None
 
     # dimensionless
     def X(self, tau):
@@ -248,10 +250,34 @@ class Flow:
         return self.t0 + tau / self.s
 
     def get_velocity_gradient(self, t, x):
-        return self.s * self.Lhat_x(self.tau_of(t), x)
+        """Steady flows hand out one and the same array on every call (`lambda t, x: L`, the
+        commonest user callable); whatever was handed out must never be written to."""
+        self._audit()
+        if not (self.time_dependent or self.position_dependent):
+            if self._const is None:
+                self._const = self.s * self.Lhat_x(0.0, self.X(0.0))
+            out = self._const
+        else:
+            out = self.s * self.Lhat_x(self.tau_of(t), x)
+        self._last = (out, out.copy(), "velocity gradient")
+        return out
 
     def get_position(self, t):
-        return self.X(self.tau_of(t))
+        self._audit()
+        if self.path["k"] == "fixed":
+            if self._xconst is None:
+                self._xconst = self.X(0.0).copy()
+            out = self._xconst
+        else:
+            out = self.X(self.tau_of(t))
+        self._last = (out, out.copy(), "position")
+        return out
+
+    def _audit(self):
+        if self._last is not None:
+            arr, pristine, what = self._last
+            if not np.array_equal(arr, pristine):
+                self.tampered = f"the {what} array returned by the user callable was modified in place"
 
     def strain(self, ta, tb, npts=801):
         """Accumulated strain: integral of max |eig D| over [ta, tb] (dimensionless tau)."""
@@ -299,7 +325,55 @@ SOLVER_ERRORS = (_err.IterationError,)
 
 
 def update(mineral, params, F, flow, ta, tb, get_regime=None, **kw):
-    """One Mineral.update_orientations call over dimensionless [ta, tb]."""
+    """One Mineral.update_orientations call over dimensionless [ta, tb]; the arguments handed
+    over (parameter dictionary, starting deformation gradient) must come back unmodified."""
+    import copy
+
+    params_before = copy.deepcopy(params)
+    F_before = np.array(F, copy=True)
+    out = _update(mineral, params, F, flow, ta, tb, get_regime, **kw)
+    flow._audit()
+    if flow.tampered:
+        raise Violation(flow.tampered)
+    if params != params_before:
+        changed = [k for k in params_before if params.get(k) != params_before[k]] + [k for k in params if k not in params_before]
+        raise Violation(f"update_orientations modified the parameter dictionary it was given (keys {changed})")
+    if not np.array_equal(np.asarray(F), F_before):
+        raise Violation("update_orientations modified the deformation gradient array it was given")
+    return out
+
+
+def update_bulk(minerals, params, F, flow, ta, tb, get_regime=None, **kw):
+    """One pydrex.update_all call over dimensionless [ta, tb], with the same argument audits."""
+    import copy
+
+    params_before = copy.deepcopy(params)
+    F_before = np.array(F, copy=True)
+    lst = list(minerals)
+    out = sut(
+        pydrex.update_all,
+        lst,
+        params,
+        F,
+        flow.get_velocity_gradient,
+        (flow.t_of(ta), flow.t_of(tb), flow.get_position),
+        get_regime=get_regime,
+        allowed=SOLVER_ERRORS,
+        **kw,
+    )
+    flow._audit()
+    if flow.tampered:
+        raise Violation(flow.tampered)
+    if params != params_before:
+        raise Violation("update_all modified the parameter dictionary it was given")
+    if not np.array_equal(np.asarray(F), F_before):
+        raise Violation("update_all modified the deformation gradient array it was given")
+    if len(lst) != len(minerals) or any(a is not b for a, b in zip(lst, minerals)):
+        raise Violation("update_all modified the list of minerals it was given")
+    return out
+
+
+def _update(mineral, params, F, flow, ta, tb, get_regime=None, **kw):
     return sut(
         mineral.update_orientations,
         params,
